@@ -4,6 +4,7 @@ import HapVerif.Proofs.CryptoIdeal
 import HapVerif.Props.C15
 import HapVerif.Gen.Protocol
 import HapVerif.Gen.Install
+import HapVerif.Proofs.ReconnectSecure
 
 /-! # C01 - pair-verify yields session keys only for the authentic paired accessory
 
@@ -300,5 +301,39 @@ theorem C01_install_sites :
     Gen.Install.coapCtxArgs = ["recv_ctx", "send_ctx", "event_ctx"] ∧
     Gen.Install.ble = [("EncryptionKey", ["Control-Salt", "Control-Write-Encryption-Key"]), ("DecryptionKey", ["Control-Salt", "Control-Read-Encryption-Key"])] := by
   decide
+
+/-! ## No session before the proof (the IP connection supervisor, model of `Reconnect.lean`)
+
+The session keys are installed, and the pairing reports itself connected, only by the verdict of *this*
+connection's pair-verify: `_connect_once` clears `is_secure` before it opens the TCP connection, so a flag left
+over from the previous session cannot make request entry points (all of which are gated by `is_connected`)
+write on a connection whose peer has not proved anything yet. -/
+
+open HapVerif.Reconnect in
+/-- **In every reachable state of the supervisor, while the TCP connect or the pair-verify of an attempt is
+    pending the pairing is not connected** - whatever happened before (an earlier verified session lost by a peer
+    drop, a close, failed attempts, zeroconf updates, callers asking for the connection at any time). -/
+theorem C01_no_session_before_proof (hosts : List Host) (evs : List Ev) :
+    (∀ t r, (run (init hosts) evs).conn = .tcpWait t r → (run (init hosts) evs).isConnected = false) ∧
+    (∀ t c, (run (init hosts) evs).conn = .verifyWait t c → (run (init hosts) evs).isConnected = false) := by
+  have hv := V_run evs (init hosts) (V_init hosts)
+  generalize run (init hosts) evs = s at *
+  constructor
+  · intro t r hc
+    unfold V at hv; rw [hc] at hv
+    simp [St.isConnected, hv]
+  · intro t c hc
+    unfold V at hv; rw [hc] at hv
+    simp [St.isConnected, hv]
+
+open HapVerif.Reconnect in
+/-- non-vacuity: a verified session is dropped by the peer; while the next pair-verify is pending (the accessory
+    has not answered yet) the pairing is not connected although it was a moment ago, and a new connection is
+    already the current one -/
+example :
+    let s1 := run (init [1]) [.pushVer .ok, .pushTcp (.ok 0), .ensure 1 none]
+    let s2 := run s1 [.pushVer .hang, .pushTcp (.ok 0), .drop 0]
+    s1.isConnected = true ∧ s2.conn = .verifyWait 245760 1 ∧ s2.current = some 1 ∧ s2.isConnected = false := by
+  decide +kernel
 
 end HapVerif.C01
